@@ -137,6 +137,15 @@ func runC12(p *Program, r *Result) {
 		if n == 0 {
 			r.Bad(pkgStream, "direct-read", "", "the EOF probe is gone")
 		}
+		// a single bufio.Reader.Read / os.File.Read returns whatever happens to be available
+		for _, fn := range p.Funcs {
+			if !inPkg(fn, libPkgs...) {
+				continue
+			}
+			for _, c := range callsToAny(fn, "(*bufio.Reader).Read", "(*os.File).Read", "(*bytes.Reader).Read") {
+				r.Bad(fn.String(), "direct-read:"+short(calleeName(c.Common())), r.pos(c), "a source is read with a single Read call: what it returns depends on how the bytes are delivered")
+			}
+		}
 		checkSites(p, r, recipeSites, "C12")
 	}
 
